@@ -186,7 +186,10 @@ def build(conn):
 
         def alert_rec(d):
             return WRec(d, "alert", seal(d, 21, b"\x01\x00"))
-        ticket_rec = None
+
+        def ticket_rec(i, n):
+            # an encrypted HelloRequest in the middle of the connection (the client ignores it, no renegotiation follows)
+            return WRec("s", "ehs", seal("s", 22, T.hs_msg(0, b"")))
     else:
         hl = 48 if s.prf == "sha384" else 32
         sec = {lab: R.fork("sec", lab).bytes(hl) for lab in ("chs", "shs", "cap", "sap", "exp")}
@@ -248,7 +251,8 @@ def build(conn):
 
     # application flights
     recs = conn.get("recs", [])
-    tickets = {int(k): v for k, v in (conn.get("tickets") or {}).items()} if ver == T.TLS13 else {}
+    tickets = {int(k): v for k, v in (conn.get("tickets") or {}).items()} if ver == T.TLS13 else \
+        {int(k): 0 for k in (conn.get("hello_req") or [])}
     sizes = conn.get("fl") or [1] * len(recs)
     idx = 0
     merged_first = bool(conn.get("merge_first")) and len(flights) > 0
